@@ -2002,6 +2002,17 @@ class Transport(threading.Thread, ClosingContextManager):
         key = self._key_info[self.host_key_type](Message(host_key))
         if key is None:
             raise SSHException("Unknown host key type")
+        # The signature must have been made with the host key algorithm that
+        # was negotiated (RFC 8332 section 3.2), not merely with any algorithm
+        # this key type is able to verify (eg SHA-1 "ssh-rsa" when
+        # "rsa-sha2-512" was agreed upon, or was the only one enabled).
+        expected_algo = self.host_key_type.replace("-cert-v01@openssh.com", "")
+        if Message(sig).get_string() != expected_algo.encode("ascii"):
+            raise SSHException(
+                "Host key signature does not use the negotiated algorithm ({})".format(  # noqa
+                    self.host_key_type
+                )
+            )
         if not key.verify_ssh_sig(self.H, Message(sig)):
             raise SSHException(
                 "Signature verification ({}) failed.".format(
